@@ -85,6 +85,60 @@ theorem C16_source_ensureMade_src (st : St) :
 
 end SourceTieT2
 
+/-! ### Capstones: the property composed with the source tie. The TRANSLATED SOURCE ITSELF (`QR.Gen.Code`, regenerated
+    from /repo's current Python AST on every run) satisfies the Spec statement, for all inputs; no `QR.Model` function
+    occurs in a conclusion. Covered: `qrcode/main.py:QRCode.get_matrix` after its `if self.data_cache is None: self.make()`
+    (that implicit compile is NOT part of these capstones - `make` is a callee treated by `C16_implicit_compile`):
+    the early return `if not self.border: return self.modules` (`get_matrix_early`) and the framing code
+    (`get_matrix_code`, with Python's `False` instantiated by `false`). -/
+section Capstone
+open QR.Model QR.Gen.Code QR.SourceTieB
+
+/-- **capstone, `qrcode/main.py:QRCode.get_matrix`** (body after the implicit compile): for every `n × n` module matrix and
+    every border the translated code returns exactly `Spec.frame M n border`, the symbol framed by `border` light modules
+    on each side. From `C16_source_getMatrix_src` and `C16_frame`. -/
+theorem C16_source_capstone_frame (M : List (List Bool)) (n border : Nat)
+    (hlen : M.length = n) (hrow : ∀ row ∈ M, row.length = n) :
+    (if get_matrix_early border then M else get_matrix_code false M border) = Spec.frame M n border := by
+  rw [← C16_source_getMatrix_src M border]
+  exact C16_frame M n border hlen hrow
+
+/-- **capstone, `qrcode/main.py:QRCode.get_matrix`**, pointwise: position `(r, c)` of the translated code's result is dark iff
+    `Spec.framed M n border r c` (it lies in the `n × n` window at `(border, border)` and the module there is dark), for
+    ALL `r c` (outside the result both sides are light). From `C16_source_getMatrix_src` and `C16_pointwise`. -/
+theorem C16_source_capstone_pointwise (M : List (List Bool)) (n border : Nat)
+    (hlen : M.length = n) (hrow : ∀ row ∈ M, row.length = n) (r c : Nat) :
+    (((if get_matrix_early border then M else get_matrix_code false M border)).getD r []).getD c false
+      = Spec.framed M n border r c := by
+  rw [← C16_source_getMatrix_src M border]
+  exact C16_pointwise M n border hlen hrow r c
+
+/-- **capstone, `qrcode/main.py:QRCode.get_matrix`**, shape: the translated code's result is square of side `n + 2*border`.
+    From `C16_source_getMatrix_src` and `C16_shape`. -/
+theorem C16_source_capstone_shape (M : List (List Bool)) (n border : Nat)
+    (hlen : M.length = n) (hrow : ∀ row ∈ M, row.length = n) :
+    (if get_matrix_early border then M else get_matrix_code false M border).length = n + 2 * border ∧
+      ∀ row ∈ (if get_matrix_early border then M else get_matrix_code false M border), row.length = n + 2 * border := by
+  rw [← C16_source_getMatrix_src M border]
+  exact C16_shape M n border hlen hrow
+
+/-- **capstone, `qrcode/main.py:QRCode.get_matrix`**, border 0: the translated code returns `self.modules` itself, for a matrix of
+    any shape. From `C16_source_getMatrix_src` and `C16_zero`. -/
+theorem C16_source_capstone_zero (M : Mods) :
+    (if get_matrix_early 0 then M else get_matrix_code false M 0) = M := by
+  rw [← C16_source_getMatrix_src M 0]
+  exact C16_zero M
+
+/-- the capstone at a concrete 2 x 2 symbol with border 1, and the translated code evaluated directly -/
+example : (if get_matrix_early 1 then [[true, false], [true, true]] else get_matrix_code false [[true, false], [true, true]] 1)
+    = Spec.frame [[true, false], [true, true]] 2 1 :=
+  C16_source_capstone_frame _ 2 1 rfl (by decide)
+example : (if get_matrix_early 1 then [[true, false], [true, true]] else get_matrix_code false [[true, false], [true, true]] 1)
+    = [[false, false, false, false], [false, true, false, false], [false, true, true, false],
+       [false, false, false, false]] := by decide
+
+end Capstone
+
 /-- the Python functions this property's model mirrors have, in /repo's current working tree, exactly the normalised
     ASTs the model was written and validated against (fingerprints regenerated by T1 on every run) -/
 theorem C16_source_fingerprints : QR.Gen.fp_C16 = QR.Pinned.fp_C16 := by decide
